@@ -206,8 +206,10 @@ func famConc(o *Out, r R, tier string) {
 
 // famStress: goroutines serving requests while a writer walks a cycle of states in which some
 // (configuration, debug) combinations NEVER exist: P only with debug on, S only with debug off.
-//   (Q,on) -Reconfigure(P)-> (P,on) -Reconfigure(Q)-> (Q,on) -SetDebug(false)-> (Q,off) -Reconfigure(S)-> (S,off)
-//   -Reconfigure(nil)-> (nil,off) -Reconfigure(Q)-> (Q,off) -SetDebug(true)-> (Q,on) ...
+//
+//	(Q,on) -Reconfigure(P)-> (P,on) -Reconfigure(Q)-> (Q,on) -SetDebug(false)-> (Q,off) -Reconfigure(S)-> (S,off)
+//	-Reconfigure(nil)-> (nil,off) -Reconfigure(Q)-> (Q,off) -SetDebug(true)-> (Q,on) ...
+//
 // Every response must be the response of ONE state of the cycle (a response mixing the configuration of one
 // instant with the debug mode of another - (P,off) or (S,on) - belongs to none), every Config() a normal form
 // of P, Q, S or nil.
@@ -727,7 +729,7 @@ func randBytes(r R, n int) string {
 func famPanic(o *Out, r R, tier string) {
 	n, maxLen := 3000, 4096
 	if tier == "thorough" {
-		n, maxLen = 12000, 1 << 18
+		n, maxLen = 12000, 1<<18
 	}
 	guard := func(kind, desc string, f func()) {
 		ok := true
@@ -1009,11 +1011,11 @@ func famAlloc(o *Out, r R, tier string) {
 		sizes = []int{1, 2, 16, 256, 4096, 65536, 100000, 1 << 20}
 	}
 	cfgs := map[string]cors.Config{
-		"allow-all":       {Origins: []string{"*"}, Methods: []string{"*"}, RequestHeaders: []string{"*"}},
-		"discrete":        {Origins: []string{"https://example.com", "https://*.example.org:*"}, Methods: []string{"PUT", "PATCH"}, RequestHeaders: []string{"x-a", "x-b", "x-c"}, MaxAgeInSeconds: 30, ResponseHeaders: []string{"x-r"}},
-		"star-hdrs-anon":  {Origins: []string{"https://example.com"}, RequestHeaders: []string{"*", "Authorization"}, Methods: []string{"*"}},
-		"star-hdrs-cred":  {Origins: []string{"https://example.com"}, Credentialed: true, RequestHeaders: []string{"*"}, Methods: []string{"*"}},
-		"discrete-cred":   {Origins: []string{"https://example.com"}, Credentialed: true, RequestHeaders: []string{"x-a"}, Methods: []string{"PUT"}, ExtraConfig: cors.ExtraConfig{PrivateNetworkAccess: true}},
+		"allow-all":      {Origins: []string{"*"}, Methods: []string{"*"}, RequestHeaders: []string{"*"}},
+		"discrete":       {Origins: []string{"https://example.com", "https://*.example.org:*"}, Methods: []string{"PUT", "PATCH"}, RequestHeaders: []string{"x-a", "x-b", "x-c"}, MaxAgeInSeconds: 30, ResponseHeaders: []string{"x-r"}},
+		"star-hdrs-anon": {Origins: []string{"https://example.com"}, RequestHeaders: []string{"*", "Authorization"}, Methods: []string{"*"}},
+		"star-hdrs-cred": {Origins: []string{"https://example.com"}, Credentialed: true, RequestHeaders: []string{"*"}, Methods: []string{"*"}},
+		"discrete-cred":  {Origins: []string{"https://example.com"}, Credentialed: true, RequestHeaders: []string{"x-a"}, Methods: []string{"PUT"}, ExtraConfig: cors.ExtraConfig{PrivateNetworkAccess: true}},
 	}
 	const K = 4 // small absolute bound on the middleware's own allocations per request
 	for name, c := range cfgs {
